@@ -142,7 +142,7 @@ impl Prop for C17 {
     for k in crate::refm::REAL_KINDS.iter().filter(|k| **k != "r64") {
       // (no empty vector: the literal [] has no element kind, so a machine declared over [k] rightly rejects it)
       for (j, xs) in [vec![5i64, 3, 8], vec![1], vec![2, 7, 1, 8, 2], vec![9, 1], vec![4, 0, 6, 7], vec![3, 3]].iter().enumerate() {
-        for pat in ["sum", "odd", "ends"] {
+        for pat in ["sum", "odd", "ends", "subscript", "arg-subscript"] {
           if tier == Tier::Quick && (j + pat.len() + k.len() + seed as usize) % 2 == 1 { continue; }
           out.push(Case { id: format!("arraykind;kind={};pat={};k={}", k, pat, j), cell: format!("arraykind;kind={};pat={}", k, pat), input: json!({"mode": "arraykind", "kind": k, "xs": xs, "pat": pat}) });
         }
@@ -290,11 +290,14 @@ impl Prop for C17 {
         let (body, want): (String, i64) = match pat {
           "sum" => ("  :Scan([x | tail], acc) -> :Scan(tail, acc + x)\n  :Scan([], acc) -> :Done(acc)\n".into(), xs.iter().sum()),
           "odd" => ("  :Scan([a, b | tail], acc) -> :Scan(tail, acc + a)\n  :Scan([a | tail], acc) -> :Scan(tail, acc + a)\n  :Scan([], acc) -> :Done(acc)\n".into(), xs.iter().step_by(2).sum()),
+          // a pattern variable / a state argument that is SUBSCRIPTED in the next state (globals of the same names hold other vectors)
+          "subscript" => { if xs.len() < 2 { return Outcome::trivial(); } ("  :Scan([x | tail], acc) -> :Done(tail[1] * {T} + x)\n".replace("{T}", &l(10)), xs[1] * 10 + xs[0]) }
+          "arg-subscript" => { if xs.len() < 2 { return Outcome::trivial(); } ("  :Scan(xs, acc) -> :Done(xs[2] * {T} + xs[1])\n".replace("{T}", &l(10)), xs[1] * 10 + xs[0]) }
           // first and last of a vector with at least two elements, the single element twice, zero for the empty vector
           _ => ("  :Scan([lo … hi], acc) -> :Done(lo * {T} + hi)\n  :Scan([x | tail], acc) -> :Done(x * {T} + x)\n  :Scan([], acc) -> :Done(acc)\n".replace("{T}", &l(10)), match xs.len() { 0 => 0, 1 => xs[0] * 11, n => xs[0] * 10 + xs[n - 1] }),
         };
         if xs.is_empty() && pat != "sum" { return Outcome::trivial(); }
-        let src = format!("#Arr(xs<[{k}]>) => <{k}>\n  ├ :Scan(xs<[{k}]>, acc<{k}>)\n  └ :Done(out<{k}>).\n\n#Arr(xs) -> :Scan(xs, {z})\n{body}  :Done(out) => out.\n\n#Arr({arg})", k = k, z = l(0), body = body, arg = arg);
+        let src = format!("#Arr(xs<[{k}]>) => <{k}>\n  ├ :Scan(xs<[{k}]>, acc<{k}>)\n  └ :Done(out<{k}>).\n\n#Arr(xs) -> :Scan(xs, {z})\n{body}  :Done(out) => out.\n\nxs := [{d1} {d2} {d3}]\ntail := [{d2} {d3} {d1}]\nx := {d3}\nacc := {d1}\n#Arr({arg})", k = k, z = l(0), body = body, arg = arg, d1 = l(4), d2 = l(6), d3 = l(9));
         let mut s = Sess::new();
         let res = s.eval(&src);
         let wantv = CVal::S(k.to_string(), sc(want));
@@ -306,7 +309,7 @@ impl Prop for C17 {
           other => {
             if k != "u64" {
               let lu = |v: i64| format!("{}u64", v);
-              let twin = format!("#Arr(xs<[u64]>) => <u64>\n  ├ :Scan(xs<[u64]>, acc<u64>)\n  └ :Done(out<u64>).\n\n#Arr(xs) -> :Scan(xs, 0u64)\n{body}  :Done(out) => out.\n\n#Arr({arg})", body = body.replace(&l(10), "10u64"), arg = if xs.is_empty() { "[]".to_string() } else { format!("[{}]", xs.iter().map(|x| lu(*x)).collect::<Vec<_>>().join(" ")) });
+              let twin = format!("#Arr(xs<[u64]>) => <u64>\n  ├ :Scan(xs<[u64]>, acc<u64>)\n  └ :Done(out<u64>).\n\n#Arr(xs) -> :Scan(xs, 0u64)\n{body}  :Done(out) => out.\n\nxs := [4u64 6u64 9u64]\ntail := [6u64 9u64 4u64]\nx := 9u64\nacc := 4u64\n#Arr({arg})", body = body.replace(&l(10), "10u64"), arg = if xs.is_empty() { "[]".to_string() } else { format!("[{}]", xs.iter().map(|x| lu(*x)).collect::<Vec<_>>().join(" ")) });
               let mut t = Sess::new();
               let tw = t.eval(&twin);
               if !matches!(&tw, Ev::Ok(CVal::S(_, Sc::U(g))) if *g as i64 == want) { return Outcome::trivial().tag(format!("machine-unsupported:{}", pat)); }
